@@ -16,7 +16,7 @@ import sweep
 from common import Suite
 
 TRUSTED = ["C13: CPython's ast positions delimit the complete text of a node (the oracle's definition)",
-           "C13: get_charnos' trimming of leading/trailing blanks and the decorator adjustment are checked by the oracle, not modelled"]
+           "C13: which position counts as the first decorator (min over decorator_list) is computed by the harness as the code does"]
 ASSUMPTIONS = ["columns reported by CPython are at character boundaries"]
 
 SNIPPETS = [
@@ -104,6 +104,66 @@ def offsets_suite(ctx):
     s.note = ("24 hand-written snippets (multi-byte text before the node, CRLF, CR, form feed, U+2028, decorators, multi-line, no final newline) + corpus programs, "
               "some with non-ASCII names injected or CRLF line ends; every positioned node: model span (from CPython's byte positions) == get_source_segment and == "
               "core.get_charnos (undecorated, untrimmed nodes); Match lineno/col for random offsets; non-trivial = non-ASCII or exotic line breaks")
+    return s
+
+
+CHARNOS_EXTRA = ["x = foo( 1 )  \n", "class A:\n    @dec\n    def m(self):\n        return  foo( 2 )\n", "if a:\n        y = 1\n", "v = [ 1,  2 ]\n", "@d1\n@ d2\ndef f(): pass\n", "  \n@x\nclass K: pass\n",
+                 "def f():\n    pass\n#@", "@é.dec\nasync def h():  \n    return foo( 'ß' )\n", "x = (  foo(1)  )\r\n@d\r\ndef g(): pass\r\n", "s = f'{ x }  '\nt = foo(s) ;  u = 2\n"]
+
+
+def charnos_suite(ctx):
+    """core.get_charnos in full (trimming, decorator look-behind, keep_first_indent) vs Charnos.getCharnos"""
+    from pyrefact import core
+
+    s = Suite("charnos")
+    r = ctx.rng("charnos")
+    srcs = list(SNIPPETS) + CHARNOS_EXTRA + [src for (_sha, src, _f) in sweep.pick(sweep.generated_corpus(), ctx, 20) + sweep.pick(sweep.example_corpus(), ctx, 60)]
+    extra = []
+    for src in srcs[len(SNIPPETS) + len(CHARNOS_EXTRA):][:25]:
+        extra.append(src.replace("print(", "print('é→', ", 1).replace("x", "ξ") if r.random() < 0.6 else src.replace("\n", "\r\n"))
+    srcs += extra
+    reqs, metas = [], []
+    for src in srcs:
+        try:
+            tree = ast.parse(src)
+        except SyntaxError:
+            continue
+        items = []
+        for n in [n for n in ast.walk(tree) if hasattr(n, "lineno")][:120]:
+            first = n
+            if getattr(n, "decorator_list", None):
+                first = min(n.decorator_list, key=lambda d: (d.lineno, d.col_offset))
+            is_def = isinstance(n, (ast.ClassDef, ast.FunctionDef, ast.AsyncFunctionDef))
+            end = [n.end_lineno, n.end_col_offset] if getattr(n, "end_lineno", None) is not None else [None, None]
+            for keep in (False, True):
+                items.append(([first.lineno, first.col_offset, end[0], end[1], is_def, keep], n, keep))
+        if items:
+            reqs.append({"suite": "charnos", "src": src, "nodes": [i[0] for i in items]})
+            metas.append((src, items))
+    answers = ctx.driver.ask(reqs)
+    for (src, items), ans in zip(metas, answers):
+        s.cases += 1
+        if "ranges" not in ans:
+            s.disagreements.append({"src": src, "what": "driver refused", "model": ans})
+            continue
+        for (req, n, keep), rng in zip(items, ans["ranges"]):
+            try:
+                real = core.get_charnos(n, src, keep_first_indent=keep)
+            except Exception as ex:  # noqa: BLE001
+                s.disagreements.append({"src": src, "node": type(n).__name__, "request": req, "what": f"get_charnos raised {ex!r}"})
+                break
+            seg = ast.get_source_segment(src, n) or ""
+            if seg != seg.strip(" ") or getattr(n, "decorator_list", None) or keep:
+                s.nt([src, req])
+                s.count("trimmed / decorated / keep_first_indent")
+            if [real.start, real.end] != list(rng):
+                s.disagreements.append({"src": src, "node": type(n).__name__, "request": req, "model": list(rng), "real": [real.start, real.end],
+                                        "what": "core.get_charnos differs from the model (Charnos.getCharnos)"})
+                break
+    s.samples.append({"suite": "charnos", "src": "@dec\ndef g():\n    return foo(1)\n", "request": [1, 1, 3, 17, True, False], "range": [0, 31]})
+    s.note = ("34 hand-written snippets (decorators incl. '@ d2' and non-ASCII, blanks inside brackets and at line ends, CRLF / CR, form feed, f-string parts, a trailing '#@') + corpus programs, some with non-ASCII names "
+              "or CRLF: for every positioned node x keep_first_indent in {False, True}, Charnos.getCharnos fed with CPython's (lineno, byte column) pairs vs core.get_charnos (start and end offset); "
+              "non-trivial = the node text is trimmed, the node is decorated, or keep_first_indent is set")
     return s
 
 
@@ -198,7 +258,7 @@ def coherence_oracle(ctx):
 
 def suites(ctx):
     common.import_pyrefact()
-    return [offsets_suite(ctx), coherence_oracle(ctx)]
+    return [offsets_suite(ctx), charnos_suite(ctx), coherence_oracle(ctx)]
 
 
 def search(ctx, breaks):
